@@ -315,7 +315,7 @@ fn c10_q_userdata_flag_word_any() {
 
 /// One attachment step from an ARBITRARY context (inductive step for histories of any length): a parser state with 2
 /// layers, 2 slices, 2 tags and one cel, none of which has user data yet; the attachment context is symbolic over every
-/// variant and index (valid and invalid). add_user_data attaches the record to exactly the entity the context names --
+/// variant and every index the parser can reach (incl. the tag index one past the last tag). add_user_data attaches the record to exactly the entity the context names --
 /// and to nothing else -- advances a tag context by one, and reports contexts that name nothing as error values.
 #[kani::proof]
 #[kani::unwind(6)]
@@ -340,6 +340,14 @@ fn c10_q_attach_step_any_context() {
     let which: u8 = kani::any();
     let idx: u8 = kani::any();
     kani::assume(which < 6 && idx < 4);
+    // only contexts the parser can actually be in: an existing layer / slice, the cel just added, a tag index up to
+    // (and including) one past the last tag -- that one arises after as many records as there are tags
+    kani::assume(match which {
+        1 | 2 => idx < 2,
+        3 => idx <= 2,
+        5 => idx == 1,
+        _ => true,
+    });
     info.user_data_context = match which {
         0 => None,
         1 => Some(UserDataContext::LayerIndex(idx as u32)),
@@ -382,7 +390,7 @@ fn c10_q_attach_step_any_context() {
         }
     }
     kani::cover!(which == 3 && idx == 1 && r.is_ok());
-    kani::cover!(which == 5 && idx == 0 && r.is_err());
+    kani::cover!(which == 3 && idx == 2 && r.is_err(), "one record more than there are tags");
     kani::cover!(which == 0);
     core::mem::forget(r);
     core::mem::forget(info);
